@@ -636,6 +636,8 @@ class CParser(RecursiveDescentParser):
             designators = False
 
         # Parse actual initializer.
+        if init_cursor.level.typ.is_struct and init_cursor.level.at_end():
+            self.error("Too many initializers for this struct")
         typ = init_cursor.level.element_typ()
         if self.peek == "{":
             initializer = self.parse_initializer_list_sub(init_cursor, typ)
